@@ -85,7 +85,7 @@ theorem route_of_toInt? {x : Num} {i : Int} (hx : x.toInt? = some i) (hr : minI6
   | fin n m e p => simp [route, hx, hr]
 
 theorem route_of_toInt?_out {x : Num} {i : Int} (hx : x.toInt? = some i) (hr : ¬ (minI64 ≤ i ∧ i ≤ maxI64)) :
-    route x = .str (Num.textF x) := by
+    route x = .str (textF0 x) := by
   cases x with
   | inf n => simp [Num.toInt?, Num.isInt] at hx
   | fin n m e p => simp [route, hx, hr]
@@ -288,8 +288,6 @@ theorem parseNumber_prec {s : String} {y : Num} (h : parseNumber s = .ok y) : y.
     · simp only [Res.ok.injEq] at h; subst h; left; rfl
     · exact parseUnsigned_prec h
 
-/-! ### every encoding decodes to an acceptable number -/
-
 theorem unmarshalNumber_str (s : String) :
     unmarshalNumber (.str s) =
       (match parseNumber s with
@@ -300,42 +298,319 @@ theorem unmarshalNumber_str (s : String) :
   simp only [unmarshalNumber, decString]
   cases parseNumber s <;> rfl
 
+/-! ### all digits of a whole number: `Text('f', 0)` and back -/
+
+/-- value of a list of decimal digits, most significant first -/
+def dval (ds : List Nat) : Nat := ds.foldl (fun a d => a * 10 + d) 0
+
+theorem dval_snoc (ds : List Nat) (d : Nat) : dval (ds ++ [d]) = dval ds * 10 + d := by
+  simp [dval, List.foldl_append]
+
+theorem digitsFuel_acc : ∀ (fuel n : Nat) (acc : List Nat),
+    digitsFuel fuel n acc = digitsFuel fuel n [] ++ acc
+  | 0, _, _ => by simp [digitsFuel]
+  | fuel + 1, n, acc => by
+    by_cases h : n = 0
+    · simp [digitsFuel, h]
+    · simp only [digitsFuel, h, if_false]
+      rw [digitsFuel_acc fuel (n / 10) (n % 10 :: acc), digitsFuel_acc fuel (n / 10) [n % 10]]
+      simp
+
+theorem digitsFuel_succ (fuel n : Nat) (h : n ≠ 0) :
+    digitsFuel (fuel + 1) n [] = digitsFuel fuel (n / 10) [] ++ [n % 10] := by
+  simp only [digitsFuel, h, if_false]
+  exact digitsFuel_acc fuel (n / 10) [n % 10]
+
+theorem digitsFuel_val : ∀ (fuel n : Nat), n < 2 ^ fuel → dval (digitsFuel fuel n []) = n
+  | 0, n, h => by
+    have : n = 0 := by simpa using h
+    subst this; simp [digitsFuel, dval]
+  | fuel + 1, n, h => by
+    by_cases h0 : n = 0
+    · subst h0; simp [digitsFuel, dval]
+    · rw [digitsFuel_succ fuel n h0, dval_snoc, digitsFuel_val fuel (n / 10) (by rw [Nat.pow_succ] at h; omega)]
+      omega
+
+theorem digitsFuel_lt10 : ∀ (fuel n : Nat), ∀ d ∈ digitsFuel fuel n [], d < 10
+  | 0, _, d, h => by simp [digitsFuel] at h
+  | fuel + 1, n, d, h => by
+    by_cases h0 : n = 0
+    · subst h0; simp [digitsFuel] at h
+    · rw [digitsFuel_succ fuel n h0] at h
+      rcases List.mem_append.mp h with h | h
+      · exact digitsFuel_lt10 fuel (n / 10) d h
+      · simp only [List.mem_singleton] at h; omega
+
+theorem digits_val (n : Nat) : dval (digits n) = n := by
+  unfold digits
+  apply digitsFuel_val
+  have := Nat.lt_log2_self (n := n)
+  rw [Nat.pow_succ]; omega
+
+theorem digits_lt10 (n : Nat) : ∀ d ∈ digits n, d < 10 := digitsFuel_lt10 _ n
+
+theorem digits_ne_nil (n : Nat) (h : n ≠ 0) : digits n ≠ [] := by
+  unfold digits
+  rw [digitsFuel_succ _ n h]
+  simp
+
+theorem takeWhile_all {α} (p : α → Bool) : ∀ (l : List α) (x : α), x ∈ l.takeWhile p → p x = true
+  | [], _, h => by simp at h
+  | a :: l, x, h => by
+    rw [List.takeWhile_cons] at h
+    split at h
+    · rcases List.mem_cons.mp h with rfl | h
+      · assumption
+      · exact takeWhile_all p l x h
+    · simp at h
+
+/-- trailing zeros cut off and put back -/
+theorem trimZeros_pad (ds : List Nat) :
+    trimZeros ds ++ List.replicate (ds.length - (trimZeros ds).length) 0 = ds ∧ (trimZeros ds).length ≤ ds.length := by
+  unfold trimZeros
+  have h1 : ds.reverse = ds.reverse.takeWhile (· == 0) ++ ds.reverse.dropWhile (· == 0) :=
+    (List.takeWhile_append_dropWhile).symm
+  have h2 : ds = (ds.reverse.dropWhile (· == 0)).reverse ++ (ds.reverse.takeWhile (· == 0)).reverse := by
+    calc ds = ds.reverse.reverse := (List.reverse_reverse ds).symm
+      _ = (ds.reverse.takeWhile (· == 0) ++ ds.reverse.dropWhile (· == 0)).reverse := by rw [← h1]
+      _ = _ := List.reverse_append
+  have h3 : ∀ x ∈ ds.reverse.takeWhile (· == 0), x = 0 := by
+    intro x hx
+    have := takeWhile_all _ _ x hx
+    simpa using this
+  have h4 : (ds.reverse.takeWhile (· == 0)).reverse = List.replicate (ds.reverse.takeWhile (· == 0)).length 0 := by
+    rw [List.eq_replicate_iff]
+    refine ⟨by simp, ?_⟩
+    intro x hx
+    exact h3 x (by simpa using hx)
+  have hlen : ds.length = (ds.reverse.dropWhile (· == 0)).length + (ds.reverse.takeWhile (· == 0)).length := by
+    have := congrArg List.length h1
+    simp only [List.length_reverse, List.length_append] at this
+    omega
+  constructor
+  · conv => rhs; rw [h2, h4]
+    congr 2
+    simp only [List.length_reverse]
+    omega
+  · simp only [List.length_reverse]; omega
+
+/-- `Text('f', 0)` of a whole number is the numeral of the integer -/
+theorem textF0_whole (n : Bool) (m : Nat) (e : Int) (p : Nat) (hm : m ≠ 0) (he : 0 ≤ e) :
+    textF0 (.fin n m e p) =
+      (if n then "-" else "") ++ String.ofList ((digits (m * 2 ^ e.toNat)).map digitChar) := by
+  have hN : m * 2 ^ e.toNat ≠ 0 := Nat.mul_ne_zero hm (Nat.pos_iff_ne_zero.mp (Nat.two_pow_pos _))
+  obtain ⟨hpad, hle⟩ := trimZeros_pad (digits (m * 2 ^ e.toNat))
+  have hne := digits_ne_nil _ hN
+  have hpos : 0 < (digits (m * 2 ^ e.toNat)).length := List.length_pos_iff.mpr hne
+  simp only [textF0, hm, if_false, Dec.ofME, ge_iff_le, he, if_true]
+  congr 1
+  generalize digits (m * 2 ^ e.toNat) = ds at *
+  have hr : (Dec.mk (trimZeros ds) (ds.length : Int)).round (ds.length : Int) = Dec.mk (trimZeros ds) ds.length := by
+    unfold Dec.round
+    have : ((ds.length : Int) < 0 ∨ (ds.length : Int) ≥ ((trimZeros ds).length : Int)) := Or.inr (by omega)
+    simp only []
+    rw [if_pos this]
+  rw [hr]
+  unfold fmtF
+  have h1 : ((ds.length : Int) > 0) := by omega
+  simp only [h1, if_true, Int.toNat_natCast, Nat.lt_irrefl, if_false, List.append_nil]
+  have hmin : min (trimZeros ds).length ds.length = (trimZeros ds).length := by omega
+  rw [hmin, List.take_length, hpad]
+
+theorem digitChar_spec : ∀ d, d < 10 → isDigit (digitChar d) = true ∧ (digitChar d).toNat - 48 = d ∧
+    digitChar d ≠ '-' ∧ digitChar d ≠ '+' ∧ digitChar d ≠ 'I' ∧ digitChar d ≠ 'i' := by
+  decide
+
+theorem digitsVal_digits : ∀ (ds : List Nat) (acc : Nat), (∀ d ∈ ds, d < 10) →
+    digitsVal (ds.map digitChar) acc = ds.foldl (fun a d => a * 10 + d) acc
+  | [], _, _ => rfl
+  | d :: ds, acc, h => by
+    have hd := digitChar_spec d (h d (by simp))
+    simp only [List.map_cons, digitsVal, List.foldl_cons, hd.2.1]
+    exact digitsVal_digits ds _ (fun x hx => h x (by simp [hx]))
+
+theorem takeWhile_digits : ∀ (ds : List Nat), (∀ d ∈ ds, d < 10) →
+    (ds.map digitChar).takeWhile isDigit = ds.map digitChar
+  | [], _ => rfl
+  | d :: ds, h => by
+    have hd := digitChar_spec d (h d (by simp))
+    simp [hd.1, takeWhile_digits ds (fun x hx => h x (by simp [hx]))]
+
+/-- a non-empty run of decimal digits parses to the integer they denote, rounded to 512 bits -/
+theorem parseUnsigned_digits (neg : Bool) (ds : List Nat) (hd : ∀ d ∈ ds, d < 10) (hne : ds ≠ []) :
+    parseUnsigned neg (ds.map digitChar) = .ok (Num.round neg (dval ds) 0 512) := by
+  unfold parseUnsigned
+  simp only [takeWhile_digits ds hd, List.drop_length, List.isEmpty_iff, List.map_eq_nil_iff, hne, if_false]
+  rw [digitsVal_digits ds 0 hd]
+  rfl
+
+theorem parseChars_digits (neg : Bool) (ds : List Nat) (hd : ∀ d ∈ ds, d < 10) (hne : ds ≠ []) :
+    parseChars ((if neg then ['-'] else []) ++ ds.map digitChar) = .ok (Num.round neg (dval ds) 0 512) := by
+  cases ds with
+  | nil => exact absurd rfl hne
+  | cons d ds =>
+    have h0 := digitChar_spec d (hd d (by simp))
+    have hinf : ¬ ((d :: ds).map digitChar = ['I', 'n', 'f'] ∨ (d :: ds).map digitChar = ['i', 'n', 'f']) := by
+      rintro (h | h) <;> simp only [List.map_cons, List.cons.injEq] at h
+      · exact h0.2.2.2.2.1 h.1
+      · exact h0.2.2.2.2.2 h.1
+    cases neg with
+    | true =>
+      simp only [if_true, List.cons_append, List.nil_append, parseChars, hinf, if_false]
+      exact parseUnsigned_digits true (d :: ds) hd hne
+    | false =>
+      simp only [Bool.false_eq_true, if_false, List.nil_append]
+      unfold parseChars
+      simp only [List.map_cons]
+      split
+      · rename_i h; simp only [List.cons.injEq] at h; exact absurd h.1 h0.2.2.1
+      · rename_i h; simp only [List.cons.injEq] at h; exact absurd h.1 h0.2.2.2.1
+      · have := hinf
+        simp only [List.map_cons] at this
+        simp only [this, if_false]
+        exact parseUnsigned_digits false (d :: ds) hd hne
+
+/-! ### … parsed at 512 bits: exact as long as the mantissa fits -/
+
+theorem toInt?_mk_exp (neg : Bool) (m k : Nat) (p : Nat) :
+    (Num.mk neg m (k : Int) p).toInt? =
+      some (if neg then -((m * 2 ^ k : Nat) : Int) else ((m * 2 ^ k : Nat) : Int)) := by
+  unfold Num.mk
+  by_cases hm : m = 0
+  · subst hm
+    rw [norm_zero]
+    simp [toInt?_fin]
+  · obtain ⟨j, h1, h2, _⟩ := norm_spec m (k : Int) hm
+    rw [toInt?_fin]
+    have hk : (norm m (k : Int)).2 ≥ 0 := by rw [h1]; omega
+    simp only [hk, if_true]
+    have : ((norm m (k : Int)).2).toNat = k + j := by rw [h1]; omega
+    rw [this]
+    have h3 : ((norm m (k : Int)).1 : Int) * 2 ^ (k + j) = ((m * 2 ^ k : Nat) : Int) := by
+      have : (norm m (k : Int)).1 * 2 ^ (k + j) = m * 2 ^ k := by
+        rw [Nat.pow_add, ← Nat.mul_assoc, Nat.mul_right_comm, ← h2]
+      exact_mod_cast this
+    rw [h3]
+
+/-- rounding a whole number `m·2^k` to `p` bits keeps it when `m` fits `p` bits -/
+theorem round_whole_toInt? (neg : Bool) (m k p : Nat) (hp : p ≠ 0) (hm : bitlen m ≤ p) :
+    (Num.round neg (m * 2 ^ k) 0 p).toInt? =
+      some (if neg then -((m * 2 ^ k : Nat) : Int) else ((m * 2 ^ k : Nat) : Int)) := by
+  unfold Num.round roundME
+  simp only [hp, if_false]
+  by_cases hb : bitlen (m * 2 ^ k) ≤ p
+  · simp only [hb, if_true]
+    have := toInt?_mk_exp neg (m * 2 ^ k) 0 p
+    simpa using this
+  · simp only [hb, if_false]
+    generalize hkk : bitlen (m * 2 ^ k) - p = kk
+    have hkk0 : 0 < kk := by omega
+    have hle : kk ≤ k := by
+      apply Classical.byContradiction
+      intro hgt
+      have h1 : ¬ bitlen (m * 2 ^ k) ≤ p + k := by omega
+      rw [bitlen_le_iff] at h1 hm
+      apply h1
+      rw [Nat.pow_add]
+      exact Nat.mul_lt_mul_of_lt_of_le hm (Nat.le_refl _) (Nat.two_pow_pos _)
+    have hsplit : m * 2 ^ k = m * 2 ^ (k - kk) * 2 ^ kk := by
+      rw [Nat.mul_assoc, ← Nat.pow_add]; congr 2; omega
+    have hmod : m * 2 ^ k % 2 ^ kk = 0 := by rw [hsplit]; exact Nat.mul_mod_left _ _
+    have hdiv : (m * 2 ^ k) >>> kk = m * 2 ^ (k - kk) := by
+      rw [Nat.shiftRight_eq_div_pow]
+      exact Nat.div_eq_of_eq_mul_left (Nat.two_pow_pos _) hsplit
+    have hhalf : 0 < 2 ^ (kk - 1) := Nat.two_pow_pos _
+    have hc : ¬ (m * 2 ^ k % 2 ^ kk > 2 ^ (kk - 1) ∨
+        (m * 2 ^ k % 2 ^ kk = 2 ^ (kk - 1) ∧ m * 2 ^ (k - kk) % 2 = 1)) := by
+      rw [hmod]; omega
+    simp only [hdiv, hc, if_false, Int.zero_add]
+    rw [toInt?_mk_exp, ← hsplit]
+
+/-- what the decoder makes of all the digits of a whole number: the same integer, at 512 bits -/
+theorem unmarshalNumber_textF0 (n : Bool) (m : Nat) (e : Int) (p : Nat) (hm : m ≠ 0) (he : 0 ≤ e)
+    (hfit : bitlen m ≤ 512) :
+    ∃ y, unmarshalNumber (.str (textF0 (.fin n m e p))) = .ok y ∧
+      y.toInt? = (Num.fin n m e p).toInt? ∧ y.prec = 512 := by
+  have hN : m * 2 ^ e.toNat ≠ 0 := Nat.mul_ne_zero hm (Nat.pos_iff_ne_zero.mp (Nat.two_pow_pos _))
+  have hparse : parseNumber (textF0 (.fin n m e p)) = .ok (Num.round n (m * 2 ^ e.toNat) 0 512) := by
+    rw [textF0_whole n m e p hm he]
+    unfold parseNumber
+    have := parseChars_digits n (digits (m * 2 ^ e.toNat)) (digits_lt10 _) (digits_ne_nil _ hN)
+    rw [digits_val] at this
+    rw [← this]
+    cases n <;> simp
+  refine ⟨Num.round n (m * 2 ^ e.toNat) 0 512, ?_, ?_, rfl⟩
+  · rw [unmarshalNumber_str, hparse]
+  · rw [round_whole_toInt? n m e.toNat 512 (by decide) hfit, toInt?_fin]
+    have : e ≥ 0 := he
+    simp only [this, if_true]
+    cases n <;> simp
+
+/-! ### every encoding decodes to an acceptable number -/
+
+theorem isInt_of_toInt? {x : Num} {i : Int} (h : x.toInt? = some i) : x.isInt = true := by
+  simp only [Num.toInt?] at h
+  by_cases hh : x.isInt = true
+  · exact hh
+  · simp [hh] at h
+
+theorem isInt_of_toInt?_none {n : Bool} {m : Nat} {e : Int} {p : Nat} (h : (Num.fin n m e p).toInt? = none) :
+    (Num.fin n m e p).isInt = false := by
+  simp only [Num.toInt?, Num.truncInt] at h
+  by_cases hh : (Num.fin n m e p).isInt = true
+  · simp [hh] at h
+  · simpa using hh
+
+/-- a whole number beyond int64 whose mantissa fits 512 bits: all of its digits are written
+and parsed back to numerically the same number, at 512 bits -/
+theorem whole_out_back {n : Bool} {m : Nat} {e : Int} {p : Nat} {i : Int}
+    (hi : (Num.fin n m e p).toInt? = some i) (hr : ¬ (minI64 ≤ i ∧ i ≤ maxI64))
+    (hfit : wholeFits (.fin n m e p) = true) :
+    ∃ y, unmarshalNumber (encNum (.fin n m e p)) = .ok y ∧ y.toInt? = some i ∧
+      Num.cmp y (.fin n m e p) = 0 ∧ y.prec = 512 := by
+  have hint := isInt_of_toInt? hi
+  have he : 0 ≤ e := by simpa [Num.isInt] using hint
+  have hm : m ≠ 0 := by
+    intro h0
+    subst h0
+    rw [toInt?_fin] at hi
+    have : e ≥ 0 := he
+    simp only [this, if_true] at hi
+    have : i = 0 := by cases n <;> simp at hi <;> omega
+    subst this
+    exact hr (by decide)
+  have hb : bitlen m ≤ 512 := by
+    simp only [wholeFits, Num.minPrec] at hfit
+    exact of_decide_eq_true hfit
+  obtain ⟨y, hy, hyi, hyp⟩ := unmarshalNumber_textF0 n m e p hm he hb
+  refine ⟨y, ?_, hyi.trans hi, cmp_of_toInt? hi (hyi.trans hi), hyp⟩
+  simp only [encNum, route_of_toInt?_out hi hr]
+  exact hy
+
 /-- a known number: what comes back is acceptable -/
 theorem encNum_back (x : Num) (h : numFits x = true) :
     ∃ y, unmarshalNumber (encNum x) = .ok y ∧ numBack y x := by
   unfold numFits at h
-  unfold encNum
   cases x with
   | inf n =>
-    refine ⟨.inf n, by simp [route, unmarshalNumber], ?_⟩
+    refine ⟨.inf n, by simp [encNum, route, unmarshalNumber], ?_⟩
     simp [numBack, wholeOrF64, Num.cmp]
   | fin n m e p =>
     cases hi : (Num.fin n m e p).toInt? with
     | some i =>
-      have hint : (Num.fin n m e p).isInt = true := by
-        simp only [Num.toInt?] at hi
-        by_cases hh : (Num.fin n m e p).isInt = true
-        · exact hh
-        · simp [hh] at hi
+      have hint : (Num.fin n m e p).isInt = true := isInt_of_toInt? hi
       have hw : wholeOrF64 (.fin n m e p) = true := by simp [wholeOrF64, hint]
       by_cases hr : minI64 ≤ i ∧ i ≤ maxI64
-      · rw [route_of_toInt? hi hr]
+      · simp only [encNum, route_of_toInt? hi hr]
         obtain ⟨y, hy1, hy2, _⟩ := unmarshalNumber_encInt i
         exact ⟨y, hy1, by simp [numBack, hw, cmp_of_toInt? hi hy2]⟩
-      · rw [route_of_toInt?_out hi hr] at h ⊢
-        simp only [textBack, hint, if_true] at h
-        rw [unmarshalNumber_str]
-        cases hp : parseNumber (Num.textF (.fin n m e p)) with
-        | ok y =>
-          simp only [hp, beq_iff_eq] at h
-          exact ⟨y, rfl, by simp [numBack, hw, h]⟩
-        | _ => simp [hp] at h
+      · rw [route_of_toInt?_out hi hr] at h
+        simp only [hint, if_true] at h
+        obtain ⟨y, hy, _, hc, _⟩ := whole_out_back hi hr h
+        exact ⟨y, hy, by simp [numBack, hw, hc]⟩
     | none =>
-      have hint : (Num.fin n m e p).isInt = false := by
-        simp only [Num.toInt?, Num.truncInt] at hi
-        by_cases hh : (Num.fin n m e p).isInt = true
-        · simp [hh] at hi
-        · simpa using hh
+      have hint : (Num.fin n m e p).isInt = false := isInt_of_toInt?_none hi
+      unfold encNum
       by_cases hf : (Num.toF64 (.fin n m e p)).2 = true
       · have hroute : route (.fin n m e p) = .f64 (Num.toF64 (.fin n m e p)).1 := by
           simp [route, hi, hf]
@@ -346,7 +621,7 @@ theorem encNum_back (x : Num) (h : numFits x = true) :
       · have hroute : route (.fin n m e p) = .str (Num.textF (.fin n m e p)) := by
           simp [route, hi, hf]
         rw [hroute] at h ⊢
-        simp only [textBack, hint] at h
+        simp only [textBack, hint, Bool.false_eq_true, if_false] at h
         rw [unmarshalNumber_str]
         have hw : wholeOrF64 (.fin n m e p) = false := by simp [wholeOrF64, hint, hf]
         cases hp : parseNumber (Num.textF (.fin n m e p)) with
@@ -361,27 +636,26 @@ theorem encNum_exact (b : Bound) (h : boundFits (some b) = true) :
     ∃ y, unmarshalNumber (encNum b.v) = .ok y ∧ Num.cmp y b.v = 0 ∧ (y.isInf = true ∨ y.prec = decPrec b.v) := by
   unfold boundFits at h
   simp only at h
-  unfold encNum decPrec
+  unfold decPrec
   generalize b.v = x at *
   cases x with
   | inf n =>
-    exact ⟨.inf n, by simp [route, unmarshalNumber], by simp [Num.cmp], Or.inl rfl⟩
+    exact ⟨.inf n, by simp [encNum, route, unmarshalNumber], by simp [Num.cmp], Or.inl rfl⟩
   | fin n m e p =>
     cases hi : (Num.fin n m e p).toInt? with
     | some i =>
+      have hint : (Num.fin n m e p).isInt = true := isInt_of_toInt? hi
       by_cases hr : minI64 ≤ i ∧ i ≤ maxI64
-      · rw [route_of_toInt? hi hr]
+      · simp only [encNum, route_of_toInt? hi hr]
         obtain ⟨y, hy1, hy2, hy3⟩ := unmarshalNumber_encInt i
         exact ⟨y, hy1, cmp_of_toInt? hi hy2, Or.inr hy3⟩
       · rw [route_of_toInt?_out hi hr] at h ⊢
-        simp only [textExact] at h
-        rw [unmarshalNumber_str]
-        cases hp : parseNumber (Num.textF (.fin n m e p)) with
-        | ok y =>
-          simp only [hp, beq_iff_eq] at h
-          exact ⟨y, rfl, h, parseNumber_prec hp⟩
-        | _ => simp [hp] at h
+        simp only [hint, if_true] at h
+        obtain ⟨y, hy, _, hc, hp⟩ := whole_out_back hi hr h
+        exact ⟨y, hy, hc, Or.inr hp⟩
     | none =>
+      have hint : (Num.fin n m e p).isInt = false := isInt_of_toInt?_none hi
+      unfold encNum
       by_cases hf : (Num.toF64 (.fin n m e p)).2 = true
       · have hroute : route (.fin n m e p) = .f64 (Num.toF64 (.fin n m e p)).1 := by
           simp [route, hi, hf]
@@ -390,7 +664,7 @@ theorem encNum_exact (b : Bound) (h : boundFits (some b) = true) :
       · have hroute : route (.fin n m e p) = .str (Num.textF (.fin n m e p)) := by
           simp [route, hi, hf]
         rw [hroute] at h ⊢
-        simp only [textExact] at h
+        simp only [textExact, hint, Bool.false_eq_true, if_false] at h
         rw [unmarshalNumber_str]
         cases hp : parseNumber (Num.textF (.fin n m e p)) with
         | ok y =>
